@@ -60,7 +60,7 @@ Lemma do_map_eq s stars els nc noncoro ecb ccb og :
       else if ghas g (groups s1) then set_res s1 (RErr ErrGroupExists)
       else
         let s2 := set_groups (know s1 g) (gensure g (groups (know s1 g))) in
-        set_res (new_meta s2 (mk_mtask (MMap stars) g 0 false els default_w ecb ccb MNotStarted
+        set_res (new_meta s2 (mk_mtask (MMap stars) g 0 [] els default_w ecb ccb MNotStarted
                                        0 None false None nc false 0 false nc)) (RName g)
   end.
 Proof. reflexivity. Qed.
@@ -150,11 +150,11 @@ Qed.
 Definition c15_w : wspec := {| w_first := WSuspend; w_cancel := WPropagate |}.
 
 Definition c15g_cfg : config :=
-  {| cf_size := Fin 2; cf_kind := KTask; cf_bad := false; cf_w := default_w;
+  {| cf_size := Fin 2; cf_kind := KTask; cf_bad := []; cf_w := default_w;
      cf_ecb := CbNone; cf_ccb := CbNone |}.
 
 Definition c15g_tr : list label :=
-  [ LOp (OpApply 1 false false c15_w CbNone CbNone None); LRun (HT (TM 0)) ].
+  [ LOp (OpApply 1 [] false c15_w CbNone CbNone None); LRun (HT (TM 0)) ].
 
 (** the getter returns the number of FREE slots, not the size *)
 Theorem C15_getter_refuted :
@@ -165,11 +165,11 @@ Proof.
 Qed.
 
 Definition c15s_cfg : config :=
-  {| cf_size := Fin 1; cf_kind := KTask; cf_bad := false; cf_w := default_w;
+  {| cf_size := Fin 1; cf_kind := KTask; cf_bad := []; cf_w := default_w;
      cf_ecb := CbNone; cf_ccb := CbNone |}.
 
 Definition c15s_tr : list label :=
-  [ LOp (OpApply 2 false false c15_w CbNone CbNone None); LRun (HT (TM 0));
+  [ LOp (OpApply 2 [] false c15_w CbNone CbNone None); LRun (HT (TM 0));
     LRun (HT (TP 0)); LGo; LOp (OpSetSize (Some (Fin 5))) ].
 
 (** assigning a larger size does not wake the spawners that wait for room *)
